@@ -235,8 +235,8 @@ def blocks(tier, seed):
     q = tier == 'quick'
     nmax = 8 if q else 13
     seeds_ = ('s0', 's1', 's2') if q else ('s0', 's1', 's2', 's3', 's4')
-    sc = [(s, n) for s in seeds_ for n in range(2, nmax + 1)] + [(s, n) for s in ('L33a', 'L33b', 'L64') for n in (2, 3, 5)]
-    rc = [(s, n, r, f) for s in seeds_ for n in range(2, nmax + 1) for r in (False, True)
+    sc = [(s, n) for s in seeds_ for n in range(1, nmax + 1)] + [(s, n) for s in ('L33a', 'L33b', 'L64') for n in (2, 3, 5)]
+    rc = [(s, n, r, f) for s in seeds_ for n in range(1, nmax + 1) for r in (False, True)
           for f in ('00', '01')]
     rc += [('s0', n, r, f) for n in (2, 3) for r in (False, True) for f in ('02', '08', '20', '40', '80', 'a5', 'fe')]
     return [
